@@ -155,6 +155,8 @@ impl Property<'_> {
             | Property::SharedSubscriptionAvailable(value) => *value <= 1,
             Property::MaximumQoS(value) => *value <= 2,
             Property::SubscriptionIdentifier(value) => (1..=MQTT_VARINT_MAX).contains(value),
+            // A Topic Alias of 0 is not permitted [MQTT-3.3.2-8].
+            Property::TopicAlias(value) => *value != 0,
             _ => true,
         }
     }
